@@ -334,6 +334,10 @@ class Check(core.PropertyCheck):
     # server_state = errored when it forwards a client error upstream); FALSE = the code as first found
     # (findings_proposed/C03.md), kept so that the pre-repair model can show the clause is reachable.
     fix_upstream = True
+    # Second named deviation.  FALSE = the code since /repo commit 6b67c94f8 (Http1Client.read_headers drops a response
+    # head whose framing is undecidable); TRUE = the code as found (the head stays in self.response and the unguarded
+    # expected_http_body_size in send(RequestEndOfMessage) raises ValueError, findings_proposed/C03.md F3).
+    bad_frame_kept = False
 
     def mon_constants(self, tier):
         return {}
@@ -342,11 +346,11 @@ class Check(core.PropertyCheck):
         if tier == "quick":
             return {"ReqKinds": frozenset({"get", "post", "badval", "badframe", "garbage"}),
                     "RespKinds": frozenset({"cl", "nobody", "eof", "badval", "badframe", "garbage"}),
-                    "BadFrameKept": True, "Policies": POL_QUICK, "MaxFlows": 1, "MaxReqChunks": 0, "MaxRespChunks": 0,
+                    "BadFrameKept": self.bad_frame_kept, "Policies": POL_QUICK, "MaxFlows": 1, "MaxReqChunks": 0, "MaxRespChunks": 0,
                     "FixUpstream": self.fix_upstream}
         return {"ReqKinds": frozenset({"get", "post", "chunked", "badval", "badframe", "garbage"}),
                 "RespKinds": frozenset({"cl", "nobody", "eof", "badval", "badframe", "garbage"}),
-                "BadFrameKept": True, "Policies": POL_QUICK, "MaxFlows": 2, "MaxReqChunks": 1, "MaxRespChunks": 1,
+                "BadFrameKept": self.bad_frame_kept, "Policies": POL_QUICK, "MaxFlows": 2, "MaxReqChunks": 1, "MaxRespChunks": 1,
                 "FixUpstream": self.fix_upstream}
 
     def model_runs(self, ctx):
@@ -360,13 +364,14 @@ class Check(core.PropertyCheck):
         return [small, big] + self._prefix_run(ctx)
 
     def _prefix_run(self, ctx):
-        """The model of the code as found (FixUpstream = FALSE) must still reach the clause, i.e. the monitor is not
-        vacuous with respect to the defect that was repaired."""
+        """Design run: the model of the code as found (FixUpstream = FALSE, BadFrameKept = TRUE) must still reach the
+        clauses, i.e. the monitor rejects the two defects that were repaired (it is not vacuous with respect to them)."""
         chunks = {} if ctx.quick else {"MaxReqChunks": 1, "MaxRespChunks": 1}
-        pre = ctx.model_check(self.MODEL, self.model_constants("quick") | chunks | {"FixUpstream": False}, dump=False,
-                              tag="_prefix")
-        if ["C03.response_and_error", "response_after_error"] not in pre.bad:
-            raise core.MachineryError("clause C03.response_and_error unreachable in the pre-repair model")
+        pre = ctx.model_check(self.MODEL, self.model_constants("quick") | chunks
+                              | {"FixUpstream": False, "BadFrameKept": True}, dump=False, tag="_prefix")
+        for need in (["C03.response_and_error", "response_after_error"], ["C03.no_outcome", "after_request", "ValueError"]):
+            if need not in pre.bad:
+                raise core.MachineryError(f"clause {need} unreachable in the pre-repair model")
         ctx.notes["prefix_model_reaches"] = pre.bad
         pre.bad = []
         return [pre]
